@@ -37,10 +37,13 @@ type uField struct {
 	Inline    string
 	InFields  []uField
 	InOptions []string
-	// text-only variations the compiler must ignore for the compared output: an explicit
-	// `protoField = [n]` (numbering is positional: mapProperties) and a description
+	// a text-only variation the compiler must ignore for the compared output: an explicit
+	// `protoField = [n]` (numbering is positional: mapProperties)
 	ProtoField int
-	Desc       string
+	// the description: a leading comment of the proto field (compared: tag 14 lines); DescBlock
+	// writes it as `| line` lines at the top of the body (the only form that can hold several lines)
+	Desc      string
+	DescBlock bool
 }
 
 type eSchema struct {
@@ -49,6 +52,8 @@ type eSchema struct {
 	Fields  []uField // object fields / oneof options
 	Options []string // enum options
 	OptionNum []int  // the `number` an enum option declares (0 = none); ignored by the compiler (positional numbering)
+	Desc       string   // description of the schema: leading comment of the message / enum
+	OptionDesc []string // descriptions of the enum options (parallel to Options, may be shorter)
 }
 
 func (sc eSchema) coq() string {
@@ -84,6 +89,7 @@ func (k eKey) extraAttrs() []string {
 type eEvent struct {
 	Name   string
 	Fields []uField
+	Desc   string // leading comment of the nested message <X>EventType.<Name>
 }
 
 type eMethod struct {
@@ -93,6 +99,7 @@ type eMethod struct {
 	Request    []uField
 	Response   []uField
 	NoResponse bool // no response block: google.api.HttpBody
+	Desc       string // accepted, appears nowhere in the output (methodBuilder's comment set is never merged)
 }
 
 type eCommand struct {
@@ -103,6 +110,7 @@ type eCommand struct {
 	// acceptCommands replaces the declared options by the state_command annotation.
 	Audience    []string
 	OptionsForm int // 0 block, 1 dotted attributes
+	Desc        string // accepted, appears nowhere in the output
 }
 
 type eQuery struct {
@@ -117,6 +125,7 @@ type eQuery struct {
 type eSummary struct {
 	Name   string
 	Fields []uField
+	Desc   string // accepted, appears nowhere in the output
 }
 
 type entityDecl struct {
@@ -128,6 +137,7 @@ type entityDecl struct {
 	Data      []uField
 	Status    []string
 	StatusNum []int // the `number` a status declares (0 = none), parallel to Status (may be shorter)
+	StatusDesc []string // the description of a status ("" = none), parallel to Status (may be shorter)
 	Events    []eEvent
 	Commands  []eCommand
 	Summaries []eSummary
@@ -173,12 +183,44 @@ func (u uField) itemCoq() string {
 }
 
 func (u uField) sfieldCoq() string {
-	return fmt.Sprintf("(mkSF %s %s %s %s)", bt(u.Name), u.itemCoq(), vh.BoolTerm(u.Required), vh.BoolTerm(u.Optional))
+	return fmt.Sprintf("(mkSF5 %s %s %s %s %s)", bt(u.Name), u.itemCoq(), vh.BoolTerm(u.Required), vh.BoolTerm(u.Optional), bt(u.Desc))
+}
+
+// isTree: an inline object / oneof one of whose fields is again an inline schema, an array or a map
+func (u uField) isTree() bool {
+	if u.Inline != "object" && u.Inline != "oneof" {
+		return false
+	}
+	for _, f := range u.InFields {
+		if f.Inline != "" || f.Container != "" {
+			return true
+		}
+	}
+	return false
+}
+
+var inlineKindCode = map[string]int{"object": 0, "oneof": 1, "enum": 2}
+var containerCode = map[string]int{"": 0, "array": 1, "map": 2}
+
+// tfieldCoq: a field of a tree-form inline schema (Entity.tfield)
+func (u uField) tfieldCoq() string {
+	kind := "(TK " + u.itemCoq() + ")"
+	switch {
+	case u.Inline != "":
+		kind = fmt.Sprintf("(TKInline %d %d %s %s)", inlineKindCode[u.Inline], containerCode[u.Container], coqList(u.InFields, uField.tfieldCoq), coqList(u.InOptions, bt))
+	case u.Container == "array":
+		kind = "(TKArray " + u.itemCoq() + ")"
+	case u.Container == "map":
+		kind = "(TKMap " + u.itemCoq() + ")"
+	}
+	return fmt.Sprintf("(TF %s %s %s %s %s)", bt(u.Name), kind, vh.BoolTerm(u.Required), vh.BoolTerm(u.Optional), bt(u.Desc))
 }
 
 func (u uField) coq() string {
 	kind := fmt.Sprintf("(KScalar %d %s)", u.PType, bt(u.J5Kind))
-	if u.Inline == "object" {
+	if u.isTree() {
+		kind = fmt.Sprintf("(KInlineTree %d %s)", inlineKindCode[u.Inline], coqList(u.InFields, uField.tfieldCoq))
+	} else if u.Inline == "object" {
 		kind = "(KInlineObject " + coqList(u.InFields, uField.sfieldCoq) + ")"
 	} else if u.Inline == "oneof" {
 		kind = "(KInlineOneof " + coqList(u.InFields, uField.sfieldCoq) + ")"
@@ -200,7 +242,20 @@ func (u uField) coq() string {
 		}
 		kind = fmt.Sprintf("(KKey %s %s %s)", vh.BoolTerm(u.Primary), foreign, optBytes(u.Tenant))
 	}
-	return fmt.Sprintf("(mkU %s %s %s %s)", bt(u.Name), kind, vh.BoolTerm(u.Required), vh.BoolTerm(u.Optional))
+	keyfmt := 0
+	if (u.Container == "" || u.Container == "map") && u.Inline == "" && u.Ext == "" && u.Obj == "" {
+		if u.Key {
+			keyfmt = map[string]int{"": 0, "id62": 1, "uuid": 2}[u.KeyFmt]
+		} else if u.J5Kind == "key" {
+			// a key-typed scalar that is not a schema.key declaration of the generator (`data x key:id62`)
+			keyfmt = map[string]int{"key": 0, "key:id62": 1, "key:uuid": 2}[u.J5Type]
+		}
+	}
+	container := 0
+	if u.Inline != "" {
+		container = map[string]int{"": 0, "array": 1, "map": 2}[u.Container]
+	}
+	return fmt.Sprintf("(mkU7 %s %s %s %s %s %d %d)", bt(u.Name), kind, vh.BoolTerm(u.Required), vh.BoolTerm(u.Optional), bt(u.Desc), keyfmt, container)
 }
 
 func coqList[T any](xs []T, f func(T) string) string {
@@ -222,7 +277,27 @@ func (d *entityDecl) coq() string {
 	for i, n := range d.StatusNum {
 		nums[i] = fmt.Sprint(n)
 	}
-	return fmt.Sprintf("(mkE12 %s %s %s %s %s %s %s %s %s %s %s [%s])",
+	notes := "no_notes"
+	{
+		evd := make([]string, len(d.Events))
+		any := false
+		for i, e := range d.Events {
+			evd[i] = e.Desc
+			any = any || e.Desc != ""
+		}
+		scd := make([]string, len(d.Schemas))
+		opd := make([]string, len(d.Schemas))
+		for i, sc := range d.Schemas {
+			scd[i] = sc.Desc
+			opd[i] = coqList(sc.OptionDesc, bt)
+			any = any || sc.Desc != "" || len(sc.OptionDesc) > 0
+		}
+		any = any || len(d.StatusDesc) > 0
+		if any {
+			notes = fmt.Sprintf("(mkN %s %s %s [%s])", coqList(evd, bt), coqList(d.StatusDesc, bt), coqList(scd, bt), strings.Join(opd, "; "))
+		}
+	}
+	return fmt.Sprintf("(mkE13 %s %s %s %s %s %s %s %s %s %s %s [%s] %s)",
 		bt(d.Pkg), bt(d.Name), bt(d.BaseURL),
 		coqList(d.Keys, func(k eKey) string { return fmt.Sprintf("(mkK %s %s)", k.uField.coq(), vh.BoolTerm(k.Shard)) }),
 		fieldsCoq(d.Data),
@@ -240,7 +315,7 @@ func (d *entityDecl) coq() string {
 		coqList(d.Summaries, func(s eSummary) string { return fmt.Sprintf("(mkS %s %s)", bt(s.Name), fieldsCoq(s.Fields)) }),
 		q,
 		coqList(d.Schemas, eSchema.coq),
-		strings.Join(nums, "; "))
+		strings.Join(nums, "; "), notes)
 }
 
 // ---- j5s text ----------------------------------------------------------------------
@@ -249,6 +324,9 @@ var verbNames = map[int]string{1: "GET", 2: "POST", 3: "PUT", 4: "DELETE", 5: "P
 
 func (u uField) j5sType() string {
 	if u.Inline != "" {
+		if u.Container != "" {
+			return u.Container + ":" + u.Inline
+		}
 		return u.Inline
 	}
 	if u.Container != "" {
@@ -303,15 +381,20 @@ func printField(sb *strings.Builder, indent, word string, u uField, extra ...str
 	if u.ProtoField != 0 {
 		attrs = append(attrs, fmt.Sprintf("protoField = [%d]", u.ProtoField))
 	}
-	if u.Desc != "" {
+	if u.Desc != "" && !u.DescBlock {
 		attrs = append(attrs, fmt.Sprintf("description = %q", u.Desc))
 	}
 	attrs = append(attrs, extra...)
-	if len(attrs) == 0 && u.Inline == "" {
+	if len(attrs) == 0 && u.Inline == "" && !(u.Desc != "" && u.DescBlock) {
 		sb.WriteString("\n")
 		return
 	}
 	sb.WriteString(" {\n")
+	if u.Desc != "" && u.DescBlock {
+		for _, l := range strings.Split(u.Desc, "\n") {
+			sb.WriteString(indent + "\t| " + l + "\n")
+		}
+	}
 	for _, a := range attrs {
 		sb.WriteString(indent + "\t" + a + "\n")
 	}
@@ -372,14 +455,32 @@ func (d *entityDecl) block() string {
 		printField(&sb, "\t", "data", f)
 	}
 	for i, s := range d.Status {
+		var attrs []string
 		if i < len(d.StatusNum) && d.StatusNum[i] != 0 {
-			fmt.Fprintf(&sb, "\tstatus %s {\n\t\tnumber = %d\n\t}\n", s, d.StatusNum[i])
+			attrs = append(attrs, fmt.Sprintf("number = %d", d.StatusNum[i]))
+		}
+		if i < len(d.StatusDesc) && d.StatusDesc[i] != "" {
+			attrs = append(attrs, fmt.Sprintf("description = %q", d.StatusDesc[i]))
+		}
+		if len(attrs) > 0 {
+			sb.WriteString("\tstatus " + s + " {\n")
+			for _, a := range attrs {
+				sb.WriteString("\t\t" + a + "\n")
+			}
+			sb.WriteString("\t}\n")
 		} else {
 			sb.WriteString("\tstatus " + s + "\n")
 		}
 	}
 	for _, e := range d.Events {
 		sb.WriteString("\tevent " + e.Name + " {\n")
+		if e.Desc != "" && strings.Contains(e.Desc, "\n") {
+			for _, l := range strings.Split(e.Desc, "\n") {
+				sb.WriteString("\t\t| " + l + "\n")
+			}
+		} else if e.Desc != "" {
+			fmt.Fprintf(&sb, "\t\tdescription = %q\n", e.Desc)
+		}
 		for _, f := range e.Fields {
 			printField(&sb, "\t\t", "field", f)
 		}
@@ -392,6 +493,9 @@ func (d *entityDecl) block() string {
 		}
 		if c.Base != nil {
 			fmt.Fprintf(&sb, "\t\tbasePath = %q\n", *c.Base)
+		}
+		if c.Desc != "" {
+			fmt.Fprintf(&sb, "\t\tdescription = %q\n", c.Desc)
 		}
 		if c.Audience != nil {
 			q := make([]string, len(c.Audience))
@@ -406,6 +510,9 @@ func (d *entityDecl) block() string {
 		}
 		for _, m := range c.Methods {
 			sb.WriteString("\t\tmethod " + m.Name + " {\n")
+			if m.Desc != "" {
+				fmt.Fprintf(&sb, "\t\t\tdescription = %q\n", m.Desc)
+			}
 			fmt.Fprintf(&sb, "\t\t\thttpMethod = %q\n", verbNames[m.Verb])
 			fmt.Fprintf(&sb, "\t\t\thttpPath = %q\n", m.Path)
 			sb.WriteString("\t\t\trequest {\n")
@@ -430,6 +537,9 @@ func (d *entityDecl) block() string {
 		} else {
 			sb.WriteString("\tsummary " + s.Name + " {\n")
 		}
+		if s.Desc != "" {
+			fmt.Fprintf(&sb, "\t\tdescription = %q\n", s.Desc)
+		}
 		for _, f := range s.Fields {
 			printField(&sb, "\t\t", "field", f)
 		}
@@ -439,20 +549,40 @@ func (d *entityDecl) block() string {
 		switch sc.Kind {
 		case 1:
 			sb.WriteString("\toneof " + sc.Name + " {\n")
+			if sc.Desc != "" {
+				fmt.Fprintf(&sb, "\t\tdescription = %q\n", sc.Desc)
+			}
 			for _, f := range sc.Fields {
 				printField(&sb, "\t\t", "option", f)
 			}
 		case 2:
 			sb.WriteString("\tenum " + sc.Name + " {\n")
+			if sc.Desc != "" {
+				fmt.Fprintf(&sb, "\t\tdescription = %q\n", sc.Desc)
+			}
 			for i, o := range sc.Options {
+				var attrs []string
 				if i < len(sc.OptionNum) && sc.OptionNum[i] != 0 {
-					fmt.Fprintf(&sb, "\t\toption %s {\n\t\t\tnumber = %d\n\t\t}\n", o, sc.OptionNum[i])
+					attrs = append(attrs, fmt.Sprintf("number = %d", sc.OptionNum[i]))
+				}
+				if i < len(sc.OptionDesc) && sc.OptionDesc[i] != "" {
+					attrs = append(attrs, fmt.Sprintf("description = %q", sc.OptionDesc[i]))
+				}
+				if len(attrs) > 0 {
+					sb.WriteString("\t\toption " + o + " {\n")
+					for _, a := range attrs {
+						sb.WriteString("\t\t\t" + a + "\n")
+					}
+					sb.WriteString("\t\t}\n")
 				} else {
 					sb.WriteString("\t\toption " + o + "\n")
 				}
 			}
 		default:
 			sb.WriteString("\tobject " + sc.Name + " {\n")
+			if sc.Desc != "" {
+				fmt.Fprintf(&sb, "\t\tdescription = %q\n", sc.Desc)
+			}
 			for _, f := range sc.Fields {
 				printField(&sb, "\t\t", "field", f)
 			}
